@@ -54,6 +54,7 @@ def run(ctx):
     rows, d = run_domain(ctx, args)
     if rows is None:
         return
+    rows = corpus_rows(ctx) + rows
     # the recorded witness of the depth finding must still exhibit it, otherwise the key suppresses nothing
     wit = [r for r in rows if r.witness]
     witness_live = any(r.imp.get("depth") != r.ora.get("maxdepth") and r.imp.get("depth") == r.mod.get("depth") for r in wit)
@@ -62,9 +63,8 @@ def run(ctx):
     depth_hits = 0
     for r in rows:
         if r.bad:
-            if "PANIC" in r.op_line:
-                ctx.violation(f"synthesizer panicked on design {r.id}", replay_body(r, "impl!=oracle", "build_gate_ir panicked"),
-                              key=None, kind="impl!=oracle")
+            if "PANIC" in r.op_line:       # no netlist was returned: outside C20 (robustness is C11's subject); recorded
+                ctx.cov["synth_panics"] = ctx.cov.get("synth_panics", 0) + 1
             continue
         ctx.cov["evaluations"] += 1
         ctx.distinct(r.op_line.split(" drv=", 1)[-1].split(" stim=", 1)[0])
